@@ -1,7 +1,7 @@
 from vlib.core import *
 
 META = dict(
-    level_text="Proved for all sizes and all inputs, with every floating comparison an arbitrary boolean (any `Sc` instance): the models of TridiagEigen::compute and UpperHessenbergSchur::compute return normally only when the loop's own exit condition holds (tridiagonal: every sub-diagonal entry tests == 0 in the final state; Schur: iu < 0 reached), return `throw` exactly when the iteration cap stopped the loop (iter > 30n / total_iter > 40n), on normal exit of the Schur model the returned T has no two consecutive non-zero sub-diagonal entries (loop invariant + write footprint of every reflector/rotation, c09_schur_exit) and, for an upper Hessenberg input, is quasi-upper-triangular with every entry below the sub-diagonal exactly 0 (c09_schur_quasi_triangular), UpperHessenbergEigen adds no other non-normal exit, and the models' recursion budgets are never exhausted (c09_trideig_exit, c09_iteration_cap, c09_trideig_fuel, c09_schur_iteration_cap, c09_hesseig_throw_iff). Over any ordered field: eigenvalue extraction emits (t, 0) for 1x1 blocks and (x, z), (x, -z) with z >= 0 for 2x2 blocks, scaling back keeps exact conjugacy and the exact zero, also for the composed compute (c09_conj_exact, c09_conj_scale, c09_conj_compute); the model's port of libgcc __divdc3 is complex division in every scaling branch and normalize() yields squared norm exactly 1 (c09_cdiv_spec, c09_eigvec_unit); the Wilkinson shift equals b - e^2/(td + sign(td) hypot(td,e)) in both guarded branches (c09_wilkinson_shift), and the hand model's shift prologue is definitionally the function regenerated from TridiagEigen.h on every run (c09_wilkinson_gen). Whole-run exact-arithmetic statement: with an exact square root makeGivens returns c^2+s^2=1 and the eigenvector matrix returned by the TridiagEigen model has orthonormal columns, Z'Z = I, for all n, all inputs and all comparison outcomes (c09_givens_unit, c09_trideig_orth); likewise makeHouseholder returns an orthogonal reflector and the U returned by the UpperHessenbergSchur model has orthonormal columns (c09_householder_ideal, c09_schur_orth). Ring identities, array level: one Givens step stores exactly the entries of G'TG (incl. bulge) and Q.applyOnTheRight is QG entrywise (c09_trideig_step, c09_trideig_step_GtTG, c09_trideig_step_Q); a rotation with c^2+s^2=1 preserves Q'Q = I (c09_rot_orth); apply_householder_left/right compute PX / XP for P = I - tau v v' and touch nothing else (c09_householder_apply_left, c09_householder_apply_right, c09_householder_kernel). NOT proved (rounding / convergence): the backward-stability bounds T Z = Z D, Z'Z = I, U T U' = H, ||Hx - lambda x|| <= C n eps norm, and convergence within the iteration limit; they are covered only by the long-double oracle on the real classes. z > 0 for unsplit blocks is NOT a consequence of the code (finding F20).",
+    level_text="Proved for all sizes and all inputs, with every floating comparison an arbitrary boolean (any `Sc` instance): the models of TridiagEigen::compute and UpperHessenbergSchur::compute return normally only when the loop's own exit condition holds (tridiagonal: every sub-diagonal entry tests == 0 in the final state; Schur: iu < 0 reached), return `throw` exactly when the iteration cap stopped the loop (iter > 30n / total_iter > 40n), on normal exit of the Schur model the returned T has no two consecutive non-zero sub-diagonal entries (loop invariant + write footprint of every reflector/rotation, c09_schur_exit) and, for an upper Hessenberg input, is quasi-upper-triangular with every entry below the sub-diagonal exactly 0 (c09_schur_quasi_triangular), UpperHessenbergEigen adds no other non-normal exit, and the models' recursion budgets are never exhausted (c09_trideig_exit, c09_iteration_cap, c09_trideig_fuel, c09_schur_iteration_cap, c09_hesseig_throw_iff). Over any ordered field (eps > 0, sqrt arbitrary): walking the block structure of T, eigenvalue extraction emits (T(i,i), 0) for every 1x1 block and, for every 2x2 block left unsplit (T(i+1,i) != 0), (x, z), (x, -z) with z STRICTLY positive; the sign of the emitted imaginary part is the row kind, the back-substitution takes the complex branch for exactly the unsplit blocks, scaling back keeps exact conjugacy, the exact zero and positivity, also for the composed compute including the zero matrix, which returns eigenvalues 0 and the identity without any division (c09_conj_exact, c09_conj_blocks, c09_conj_unsplit_pos, c09_conj_kinds, c09_backsub_branch, c09_conj_scale, c09_conj_compute, c09_hesseig_zero); the model's port of libgcc __divdc3 is complex division in every scaling branch and normalize() yields squared norm exactly 1 (c09_cdiv_spec, c09_eigvec_unit); the Wilkinson shift equals b - e^2/(td + sign(td) hypot(td,e)) in both guarded branches (c09_wilkinson_shift), and the hand model's shift prologue is definitionally the function regenerated from TridiagEigen.h on every run (c09_wilkinson_gen). Whole-run exact-arithmetic statement: with an exact square root makeGivens returns c^2+s^2=1 and the eigenvector matrix returned by the TridiagEigen model has orthonormal columns, Z'Z = I, for all n, all inputs and all comparison outcomes (c09_givens_unit, c09_trideig_orth); likewise makeHouseholder returns an orthogonal reflector and the U returned by the UpperHessenbergSchur model has orthonormal columns (c09_householder_ideal, c09_schur_orth). Ring identities, array level: one Givens step stores exactly the entries of G'TG (incl. bulge) and Q.applyOnTheRight is QG entrywise (c09_trideig_step, c09_trideig_step_GtTG, c09_trideig_step_Q); a rotation with c^2+s^2=1 preserves Q'Q = I (c09_rot_orth); apply_householder_left/right compute PX / XP for P = I - tau v v' and touch nothing else (c09_householder_apply_left, c09_householder_apply_right, c09_householder_kernel). NOT proved (rounding / convergence): the backward-stability bounds T Z = Z D, Z'Z = I, U T U' = H, ||Hx - lambda x|| <= C n eps norm, and convergence within the iteration limit; they are covered only by the long-double oracle on the real classes.",
     note="Lean kernel + standard axioms; hand models validated bit-exactly against the real classes; Eigen makeGivens/hypot/makeHouseholder and libgcc __divdc3 re-implemented; IEEE order/negation facts for double",
     technique="Lean 4 proof (loop invariants with comparisons as oracles, ring identities) on executable hand models + bit-exact differential correspondence + long-double residual oracle",
     design="§5 C09", harnesses=['c09'])
@@ -28,7 +28,7 @@ def run(tier, seed, replay=None):
     if r:
         R.cov['distinct_nontrivial'] = distinct_count(os.path.join(r['out'], 'requests.txt'))
         R.cov['rule'] = ('fixed case counts per tier; tridiagonal patterns {random, integer, graded over 16 decades, exact zero sub-diagonals, repeated, Toeplitz, Wilkinson, zero, 1e+150, 1e-150, glued, constant diagonal, tiny sub-diagonals}; '
-                         'Hessenberg patterns {random, integer, graded, zero sub-diagonals, triangular with repeated diagonal, companion, companion of (x-r)^n (defective), Jordan, zero, 1e+150, 1e-150, cyclic shift (exceptional shifts), orthogonal, repeated 2x2 blocks, symmetric tridiagonal, identity, tiny sub-diagonals, perturbed Jordan, near-defective leading 2x2 block (b*c = -p^2 up to 3 ulp; dedicated stream + 3 fixed witnesses of F20)}; '
+                         'Hessenberg patterns {random, integer, graded, zero sub-diagonals, triangular with repeated diagonal, companion, companion of (x-r)^n (defective), Jordan, zero, 1e+150, 1e-150, cyclic shift (exceptional shifts), orthogonal, repeated 2x2 blocks, symmetric tridiagonal, identity, tiny sub-diagonals, perturbed Jordan, near-defective leading 2x2 block (b*c = -p^2 up to 3 ulp; dedicated stream + 3 fixed witnesses of the repaired F20)}; '
                          'sizes 2..20 (quick) / 2..64 (thorough); double compared bit-for-bit with the model; float, double, long double through the long-double oracle')
         R.cov['exhaustive'] = False
     return R.finish()
